@@ -271,6 +271,24 @@ def _gen_probe_step(rng, sim, named):
         other = [o for o in other if o != val] or ["1"]
         return {"op": "add", "line": "%s\t%s\t%s\t%s:%s:%s" % (x.rt, n, item, tn, dt, rng.choice(other)),
                 "as": rng.choice(["str", "line"]), "expect": "probe"}
+    if rng.random() < 0.15:
+        # a line built by hand at level 0 (nothing was checked when it was built) which carries a
+        # tag the Gfa would not have accepted in text form, as a new line or as a further line of
+        # an existing group
+        poke = rng.choice([("x", 1), ("xyz", "a"), ("1a", 2), ("aa", "a\tb"), ("bb", float("inf")), ("LN", "q")])
+        groups = [(n, x) for n, x in named if x.rt in ("O", "U")]
+        fresh = [f for f in FRESH if f not in sim.names()]
+        if v == "gfa2" and groups and segs and rng.random() < 0.6:
+            n, x = rng.choice(groups)
+            line = "%s\t%s\t%s" % (x.rt, n, rng.choice(segs) + ("+" if x.rt == "O" else ""))
+        elif segs and fresh:
+            a, b = rng.choice(segs), rng.choice(segs)
+            line = {"gfa1": rng.choice(["S\t%s\t*" % fresh[0], "L\t%s\t+\t%s\t-\t*" % (a, b)]),
+                    "gfa2": rng.choice(["S\t%s\t10\t*" % fresh[0], "G\t%s\t%s+\t%s-\t5\t*" % (fresh[0], a, b),
+                                        "U\t%s\t%s" % (fresh[0], a)])}[v]
+        else:
+            return None
+        return {"op": "add", "line": line, "as": "line0", "poke": list(poke), "expect": "probe"}
     bad = rng.choice(nonsegs)
     name = rng.choice((undefined or fresh[:1]) + fresh[:1] + ["*"])
     if v == "gfa1":
@@ -520,14 +538,20 @@ def do_step(ctx, g, st, version, vlevel):
     """perform the step on g through the public API; returns Outcome (or None = not applicable)."""
     op = st["op"]
     if op == "add":
-        if st["as"] == "line":
+        if st["as"] in ("line", "line0"):
             lv = {}
             rt = st["line"].split("\t")[0]
             if rt not in ("H", "S", "#") or len(rt) != 1:
                 lv = {"version": version}
-            lr = call(ctx, "Line(str)", gfapy.Line, st["line"], vlevel=vlevel, **lv)
+            lr = call(ctx, "Line(str)", gfapy.Line, st["line"], vlevel=(0 if st["as"] == "line0" else vlevel), **lv)
             if not lr.ok:
                 return lr
+            if st.get("poke"):
+                # (a hand-built line may carry anything: a tag name or a value which the Gfa's own
+                #  level would have refused)
+                pk = call(ctx, "set on a hand-built level-0 line", lr.value.set, st["poke"][0], st["poke"][1])
+                if not pk.ok:
+                    return pk
             return call(ctx, "add_line(Line)", g.add_line, lr.value)
         return call(ctx, "add_line(str)", g.add_line, st["line"])
     if op == "rm" and st["how"] == "name" and st.get("expect") == "fail":
@@ -613,7 +637,7 @@ def run_history(case, ctx, compare_every=True, after_step=None):
     shape = []
     for si, st in enumerate(case["steps"]):
         verdict = _apply_model_preview(model, st)
-        if st.get("expect") == "probe" and verdict not in ("ok", "merge"):
+        if st.get("expect") == "probe" and (verdict not in ("ok", "merge") or st.get("poke")):
             # the model has no verdict: WHEN the call raises, the Gfa must be unchanged
             before = O.obs(g)
             out = do_step(ctx, g, st, version, vlevel)
